@@ -24,6 +24,9 @@ func (c *roomCtx) segments(path string) []string {
 		if strings.HasPrefix(s, "$") {
 			segs[i] = c.sender(s[1:])
 		}
+		if n, ok := c.names[s]; ok {
+			segs[i] = n
+		}
 	}
 	return segs
 }
@@ -68,6 +71,20 @@ func rawOf(v interface{}, ok bool) json.RawMessage {
 func (c *roomCtx) applyFault(t tree, f fault) bool {
 	if f.none() {
 		return true
+	}
+	// names of signature entries: the local (countersigning) server, the sender's server / pseudo ID, the signing
+	// name of the inviter in PerformInvite, a third server
+	if strings.Contains(f.Path, "/@") {
+		sender, _ := t["origin"].(string)
+		inviter := "hs1"
+		if c.pseudo {
+			sender, _ = t["sender"].(string)
+			inviter = pseudoID("alice")
+		}
+		if sender == "" {
+			sender = "hs2"
+		}
+		c.names = map[string]string{"@local": "hs1", "@sender": sender, "@inviter": inviter, "@third": "hs7"}
 	}
 	segs := c.segments(f.Path)
 	last := segs[len(segs)-1]
